@@ -158,11 +158,8 @@ class UpdateTaskState(Unit):
             out.append(("item", ev, st.CANCELED, "absent", "one+fail"))            # a canceled task is un-staged
             out.append(("item", ev, st.FAILED, "items_completed", "one+fail"))     # a failed one is kept, flagged
         out.append(("action", st.RUNNING, None, "absent", "leaf"))
-        if tier != "quick":
-            # the three-target configuration multiplies every other dimension: explored only for the
-            # completing reports of a running task (the case it was added for)
-            out = [s_ for s_ in out if s_[4] != "one+fail+noop" or (s_[0] == "action" and s_[2] == st.RUNNING and s_[1] in (st.SUCCEEDED, st.FAILED))]
-        if tier == "quick":
+        full = list(out)
+        if True:
             # quick tier: every (record, event) pair for which the task table has a row, on the
             # configuration "one"; the completing pairs from a running/pending/pausing/canceling record
             # additionally on the configurations that exercise fail commands, joins and duplicate
@@ -191,6 +188,14 @@ class UpdateTaskState(Unit):
                 elif cfg == "leaf" and stg == "absent":
                     keep.append(s_)
             out = keep
+        if tier != "quick":
+            # thorough: the quick selection (on which every workflow-status case and the retry variants
+            # are then explored) plus the full (event x record x staged) cross product on the
+            # configurations with at most one transition; the cross product on the two- and
+            # three-transition configurations multiplies into hours and is not run
+            single = ("leaf", "one", "join", "fail", "noop")
+            seen = set(out)
+            out = out + [s_ for s_ in full if s_[4] in single and s_ not in seen]
         return out
 
     # ------------------------------------------------------------------------------------------
@@ -206,14 +211,21 @@ class UpdateTaskState(Unit):
             task_id = T if kind != "engine" else ev_c
             has_items = kind == "item"
             may_complete = kind in ("action", "item") and ev_c in st.COMPLETED_STATUSES and rec_c is not None
-            light = ctx.tier != "thorough" and cfg != "one"    # quick: retry / terminal-workflow variants on "one" only
+            # the retry / terminal-workflow variants multiply with the outcomes of every transition: they are
+            # explored on the single-transition configurations (quick: on "one" only); the configurations with
+            # two or three transitions get the running workflow (thorough: also canceling and failed)
+            multi = cfg not in ("leaf", "one", "join", "fail", "noop")
+            light = (cfg != "one") if ctx.tier != "thorough" else multi
             # a record waiting to be retried always carries its retry settings
             has_retry = (rec_c == st.RETRYING and kind == "action") or \
                 (may_complete and not light and e.branch(S.mk_bool("has_retry").z))
             # a completing report may also arrive late, in a workflow that is already canceled (a pending
             # or paused task is not active: the cancel request completes at once)
             late = [st.CANCELED] if may_complete else []
-            cases = (WF_CASES + late) if ctx.tier == "thorough" else ([st.RUNNING] if light else [st.RUNNING, st.FAILED] + late)
+            if ctx.tier == "thorough":
+                cases = [st.RUNNING, st.CANCELING, st.FAILED] if multi else (WF_CASES + late)
+            else:
+                cases = [st.RUNNING] if light else [st.RUNNING, st.FAILED] + late
             wf_status = cases[e.choose(len(cases))]
 
             # ---------------- pre-state
